@@ -1442,6 +1442,13 @@ class System:
             return None
 
         if mod.state is ProcessingState.UNPROCESSED:
+            # Like the interpreter, initialise the package before one of its modules: 
+            # the module inherits settings (like __docformat__) from it, 
+            # what is documented must not depend on which of them happens to be reached first.
+            parent = mod.parent
+            if isinstance(parent, Module) and parent.state is ProcessingState.UNPROCESSED:
+                self.getProcessedModule(parent.fullName())
+        if mod.state is ProcessingState.UNPROCESSED:
             self.processModule(mod)
 
         assert mod.state in (ProcessingState.PROCESSING, ProcessingState.PROCESSED), mod.state
